@@ -3411,6 +3411,11 @@ class NetCDFRead(IORead):
         # Reset 'domain_ancillary_key'
         g["domain_ancillary_key"] = {}
 
+        # Reset 'vertical_crs', so that a datum found for this
+        # variable is never inserted into the vertical coordinate
+        # references of previously created fields/domains
+        g["vertical_crs"] = {}
+
         dimensions = g["variable_dimensions"][field_ncvar]
         g["dataset_compliance"].setdefault(field_ncvar, {})
         g["dataset_compliance"][field_ncvar][
